@@ -57,6 +57,9 @@ func dstLeaves(t types.Type, prefix, local string, leaves, invisible *[]string) 
 	st := t.Underlying().(*types.Struct)
 	for i := 0; i < st.NumFields(); i++ {
 		f := st.Field(i)
+		if f.Name() == "_" {
+			continue // a blank field cannot be referred to
+		}
 		p := f.Name()
 		if prefix != "" {
 			p = prefix + "." + f.Name()
@@ -68,8 +71,12 @@ func dstLeaves(t types.Type, prefix, local string, leaves, invisible *[]string) 
 			continue
 		}
 		if s, ok := f.Type().Underlying().(*types.Struct); ok && s.NumFields() > 0 {
+			before := len(*leaves)
 			dstLeaves(f.Type(), p, local, leaves, invisible)
-			continue
+			if len(*leaves) > before {
+				continue
+			}
+			// a struct none of whose members the package can see is a leaf of its own
 		}
 		*leaves = append(*leaves, p)
 	}
